@@ -64,8 +64,17 @@ func runLines(mk func() func(fs []string) string) {
 		fs := fields(line)
 		var res string
 		if len(fs) == 1 && fs[0] == "reset" {
-			step = mk()
-			dead = stuckCases >= 5
+			// starting a new case may itself block (tearing down an implementation that has dead-locked): bounded
+			ch := make(chan func(fs []string) string, 1)
+			go func() { ch <- mk() }()
+			select {
+			case st := <-ch:
+				step = st
+				dead = stuckCases >= 5
+			case <-time.After(20 * time.Second):
+				dead = true
+				stuckCases++
+			}
 			res = "reset"
 		} else if dead {
 			res = "dead"
